@@ -49,6 +49,10 @@ var solvers = []solverSpec{
 	{"z3-new/seed11", func(f string, t int) []string {
 		return []string{"z3-new", "smt.random_seed=11", fmt.Sprintf("-T:%d", t), f}
 	}, ""},
+	// the older simplex core: quantifier-heavy VCs with many integer offsets are seed-sensitive in the default core
+	{"z3-new/arith2", func(f string, t int) []string {
+		return []string{"z3-new", "smt.arith.solver=2", fmt.Sprintf("-T:%d", t), f}
+	}, ""},
 }
 
 func (c *Ctx) errAxiom(body string) string {
@@ -109,7 +113,29 @@ func (x *Exec) buildQueryExtra(o *Oblig, wantModel bool, extra string) string {
 	if wantModel {
 		sb.WriteString("(get-model)\n")
 	}
+	if !x.exactDec {
+		return abstractFloat(sb.String())
+	}
 	return sb.String()
+}
+
+// abstractFloat: the three float64 operations of the fee-rate test (uint64 -> float64, /, >) become uninterpreted
+// functions when no other floating-point operator occurs in the query. Every model of the exact query is a model of
+// the abstracted one (read the functions as the IEEE operations), so `unsat` carries over; a `sat` answer may be
+// spurious and is only ever used as a replay candidate (the exact encoding is used when searching inputs).
+// The mixed Int/Real/FP encoding otherwise makes every obligation of such a function time out.
+func abstractFloat(t string) string {
+	if !strings.Contains(t, "fp.") && !strings.Contains(t, "to_fp") {
+		return t
+	}
+	u := strings.ReplaceAll(t, "((_ to_fp 11 53) RNE (to_real ", "(fp!i2f (fp!id ")
+	u = strings.ReplaceAll(u, "(fp.div RNE ", "(fp!div ")
+	u = strings.ReplaceAll(u, "(fp.gt ", "(fp!gt ")
+	if strings.Contains(u, "fp.") || strings.Contains(u, "to_fp") {
+		return t
+	}
+	decl := "(define-fun fp!id ((x Int)) Int x)\n(declare-fun fp!i2f (Int) Float64)\n(declare-fun fp!div (Float64 Float64) Float64)\n(declare-fun fp!gt (Float64 Float64) Bool)\n"
+	return strings.Replace(u, "(set-logic ALL)\n", "(set-logic ALL)\n"+decl, 1)
 }
 
 func runSolver(sp solverSpec, file string, timeoutS int) SolveResult {
